@@ -28,8 +28,12 @@ Conf == [
   q_coal2     |-> U(<<"coalesce">>, "small", "mid", 2, 3, 2, 2, <<1>>),
   q_calls     |-> U(<<"call", "invoke">>, "argsmall", "basic", 2, 3, 2, 2, <<1>>),
   q_modes     |-> U(<<"ref", "fill", "auto", "dict", "list", "tuple", "coalesce">>, "small", "basic", 3, 3, 2, 2, <<1, 2>>),
+  q_coaln1    |-> U(<<"coalesce">>, "nonel", "full", 2, 2, 1, 1, <<1>>),
+  q_coaln2    |-> U(<<"coalesce">>, "nonel", "mid", 2, 3, 2, 2, <<1>>),
+  q_chains    |-> U(<<"tuple", "pipe">>, "tiny", "basic", 3, 5, 2, 3, <<1, 3>>),
   q_ref       |-> U(<<"ref", "tuple", "coalesce">>, "refl", "one", 4, 5, 2, 2, <<1>>),
   \* ---- thorough tier ----
+  t_chains    |-> U(<<"tuple", "pipe">>, "small", "basic", 4, 5, 2, 3, <<1, 3>>),
   t_ref       |-> U(<<"ref", "tuple", "coalesce", "list">>, "refl", "basic", 4, 5, 2, 2, <<1, 2>>),
   t_nest      |-> U(Containers, "small", "basic", 3, 4, 2, 3, <<1, 2, 3>>),
   t_nest5     |-> U(<<"dict", "list", "tuple">>, "tiny", "basic", 3, 5, 2, 3, <<1>>),
@@ -89,8 +93,10 @@ ArgLeaves == {P("a", <<"a">>), TT(<<Step("[", S("a"))>>), TT(<<Step("[", S("b"))
 ArgSmallLeaves == {P("a", <<"a">>), TT(<<Step("[", S("a"))>>), TT(<<Step("[", S("x"))>>),
                    Wrap("spec", F("inc")), Wrap("spec", F("raise_KeyError")), Wrap("spec", P("b", <<"b">>))}
 ArgTinyLeaves == {TT(<<Step("[", S("a"))>>), Wrap("spec", F("inc")), Wrap("spec", F("raise_KeyError"))}
+\* alternatives that succeed with the value None (target value, Val, callable) next to failing ones
+NoneLeaves == {P("z", <<"z">>), V(VNone), F("ret_None"), P("a", <<"a">>), P("x", <<"x">>), F("raise_KeyError")}
 RefLeaves == {P("n", <<"n">>), P("a", <<"a">>), F("inc")}
-LeavesOf(c) == (CASE c.leaf = "tiny" -> TinyLeaves [] c.leaf = "refl" -> RefLeaves [] c.leaf = "argtiny" -> ArgTinyLeaves [] c.leaf = "small" -> SmallLeaves [] c.leaf = "full" -> FullLeaves
+LeavesOf(c) == (CASE c.leaf = "tiny" -> TinyLeaves [] c.leaf = "refl" -> RefLeaves [] c.leaf = "nonel" -> NoneLeaves [] c.leaf = "argtiny" -> ArgTinyLeaves [] c.leaf = "small" -> SmallLeaves [] c.leaf = "full" -> FullLeaves
                   [] c.leaf = "argsmall" -> ArgSmallLeaves [] OTHER -> ArgLeaves)
                \cup (IF \E i \in 1..Len(c.kinds) : c.kinds[i] = "ref" THEN {RefUse} ELSE {})
 
